@@ -11,7 +11,7 @@ def WIDE():
         plate("P", 2, 3, 0, 1e6, [[1000, 1001, 1002], [1003, 1004, 1005]]),
         dict(plate("Q", 3, 2, 0, 1e6, [[500, 500], [500, 500], [500, 500]]), np="float32"),
         dict(trough("T", 3, 2, 0, 1e6, [4000, 5000]), np="int64"),
-        trough("U", 1, 3, 0, 1e6, [300, 0, 200]),
+        dict(trough("U", 1, 3, 0, 1e6, [300, 0, 200]), generic=True),
     ]
 
 
